@@ -87,6 +87,10 @@ class _FieldOfDressed:
 
             # Restore correct _xobject
             dressed_new._xobject = getattr(container._xobject, self.name)
+
+            # The dressed parts copied from `value` still live in `value`:
+            # dress the parts of the copy instead (python attributes are kept)
+            dressed_new._reinit_from_xobject(_xobject=dressed_new._xobject)
         else:
             self.content = None
             if isinstance(
@@ -260,6 +264,18 @@ class HybridClass(metaclass=MetaHybridClass):
 
                 pyname = self._rename.get(ff.name, ff.name)
                 setattr(self, pyname, vv)
+            elif isinstance(ff.ftype, Ref) and hasattr(
+                self, "_dressed_" + ff.name
+            ):
+                # keep a cached referent only if the field still refers to it
+                target = getattr(_xobject, ff.name)
+                cached = getattr(self, "_dressed_" + ff.name)._xobject
+                if (
+                    target is None
+                    or target._buffer is not cached._buffer
+                    or target._offset != cached._offset
+                ):
+                    delattr(self, "_dressed_" + ff.name)
 
     def xoinitialize(self, _xobject=None, _kwargs_name_check=True, **kwargs):
         if _kwargs_name_check:
